@@ -11,6 +11,7 @@ ASSUME = [
     "through TorConfig.create_socks_endpoint the requested value is also a configured line in full, a loopback host:port listener's bare "
     "port, an absent port with option words, and every such request is also made twice in a row; the internal helper "
     "_create_socks_endpoint (which the library itself only calls without a requested value) is driven with first-word requests only",
+    "the well-known-port fallback is also exercised on an endpoint object that has connected before under other conditions (prior)",
     "existing configurations: unset with the built-in default in force, 1-3 explicit lines in TCP / host:port / unix forms with and "
     "without option words, 'SOCKSPort 0'; requested: none, a configured value, an unconfigured value; through "
     "Tor._default_socks_endpoint / _create_socks_endpoint (also on a Tor object with an attached TorConfig through which a refused "
@@ -75,8 +76,12 @@ def run(pid, tier, seed):
                 recs.append(sp.choose(ex, rq, "config", twice=True))
     for rq in (None, "9999", "9050"):
         recs.append(sp.choose(dict(lines=[], default="9050", lookupfails=True), rq, "tor"))
-    for outs in itertools.product(["ok", "connerr", "other", "socksfail", "hangup"], repeat=2):
+    kinds = ["ok", "connerr", "other", "socksfail", "hangup"]
+    for outs in itertools.product(kinds, repeat=2):
         recs.append(sp.fallback(outs))
+        # the same endpoint object is used again after an earlier connect() that met other conditions
+        for prior in itertools.product(["ok", "connerr", "socksfail"], ["ok", "connerr"]):
+            recs.append(sp.fallback(outs, prior))
     rep.cov["evaluations"] = len(recs)
     rep.cov["distinct_nontrivial"] = len(set(common.digest([r.get("existing"), r.get("requested"), r.get("path"), r.get("outcomes")]) for r in recs))
     rep.cov["rule"] = ("existing SOCKSPort configurations (default, 'SOCKSPort 0', ordered selections of 1-3 lines from 7 forms) x requested "
@@ -113,7 +118,7 @@ def replay(pid, path):
         lines = [e["line"] for e in v["existing"]] if not v.get("implicit_default") else []
         rec = sp.choose(dict(lines=lines, default="9050"), v["requested"] or None, v["path"])
     else:
-        rec = sp.fallback(v["outcomes"])
+        rec = sp.fallback(v["outcomes"], v.get("prior") or None)
     res, r = tlc.validate_traces("SocksPortTrace", "SocksPortTrace.cfg", [dict(rec, steps=[1])])
     known = set(f["id"] for f in common.open_findings(pid))
     if res[0]["matched"] != 1 or (set(res[0]["devs"]) - known):
